@@ -2,6 +2,7 @@
 fn:matches / replace / tokenize / analyze-string are mutually consistent."""
 from __future__ import annotations
 
+import os
 import re
 import warnings
 
@@ -38,6 +39,12 @@ FLOORS = {
     'xsd:ref-match': (0.20, 'xsd:subject'), 'xsd:ref-nomatch': (0.15, 'xsd:subject'),
     'cls:ref-match': (0.15, 'cls:subject'), 'cls:ref-nomatch': (0.15, 'cls:subject'),
     'xpath:span-compared': (0.15, 'xpath:subject'),
+    'feat:cls-neg': (0.10, 'pat:checked'), 'feat:cls-sub': (0.07, 'pat:checked'), 'feat:ref': (0.01, 'pat:checked'),
+    'feat:lazy': (0.03, 'pat:checked'), 'feat:q{n,m}': (0.03, 'pat:checked'), 'feat:alt': (0.05, 'pat:checked'),
+    'feat:grp': (0.05, 'pat:checked'), 'flag:i': (0.08, 'pat:checked'), 'flag:m': (0.05, 'pat:checked'),
+    'flag:x': (0.05, 'pat:checked'), 'flag:s': (0.05, 'pat:checked'),
+    'invalid:checked': (0.90, 'invalid:any'),
+    'fn:partitioned': (0.35, 'fn:subject'), 'fn:pattern-matches-empty': (0.08, 'fn:subject'),
 }
 
 warnings.simplefilter('ignore', FutureWarning)
@@ -362,7 +369,8 @@ def _judge_lang(check, case, rec: Recorder | None = None) -> list[Disc]:
             if nfail >= 2:
                 continue
             nfail += 1
-            mast, mflags, mver, ms, mkind = _minimise(ctx, ast, flags, xpath, ver, s, kind)
+            mast, mflags, mver, ms, mkind = _minimise(ctx, ast, flags, xpath, ver, s, kind,
+                                                      budget=30 if G.slow_algebra(ast) else 250)
             b = _bucket(check, mast, mflags, xpath, mver, ms, mkind)
             if b not in seen_buckets:
                 seen_buckets.add(b)
@@ -665,6 +673,11 @@ def judge_fn(case, rec: Recorder | None = None) -> list[Disc]:
         except R.Undecided:
             return None
 
+    if G.slow_algebra(ast):
+        # one translation of such a class takes seconds and every function call translates again
+        if rec is not None:
+            rec.cls('pat:fn-skipped-slow-class-algebra')
+        return discs
     p0 = prepare(ast, flags, ver)
     cache[canon([ast, flags, ver])] = p0
     if p0 is None:
@@ -700,6 +713,15 @@ def judge_fn(case, rec: Recorder | None = None) -> list[Disc]:
         for kind, exp, obs in r[0]:
             if nmin >= 3 or kind in kinds_done:
                 continue
+            raw = (kind, _subj_sig(s), 'grp' in G.features(ast), 'q' in flags)
+            if rec is not None:         # only while collecting: judge() stays pure for replay and shrinking
+                _FN_RAW_SEEN[raw] = _FN_RAW_SEEN.get(raw, 0) + 1
+            if rec is not None and _FN_RAW_SEEN[raw] > 8:
+                # cost bound: the same kind on the same raw subject/pattern class was already attributed 8 times
+                # by this shard; further ones are counted, not minimised again
+                if rec is not None:
+                    rec.cls('fn:discrepancy-of-an-already-attributed-raw-class')
+                continue
             nmin += 1
             kinds_done.add(kind)
 
@@ -717,11 +739,16 @@ def judge_fn(case, rec: Recorder | None = None) -> list[Disc]:
     return discs
 
 
+_FN_RAW_SEEN: dict = {}
+
+
 def _minimise_fn(fails, ast, flags, ver, s):
     """function-level discrepancies are classified by the subject, the flags and whether a capturing group is
     needed: shortest failing substring, fewest flags, groups turned into (?:..) where the failure persists"""
     done = False
-    for ln in range(len(s)):
+    for ln in (0, 1, 2, 3):
+        if ln >= len(s):
+            break
         for i in range(len(s) - ln + 1):
             if fails(ast, flags, ver, s[i:i + ln]):
                 s, done = s[i:i + ln], True
@@ -810,9 +837,13 @@ def selftest():
 
 def jobs(tier, seed):
     q = tier == 'quick'
-    plan = {'xsd': (4, 500 if q else 8000), 'xpath': (5, 600 if q else 9000), 'cls': (2, 300 if q else 4000),
-            'invalid': (2, 1200 if q else 15000), 'fn': (3, 150 if q else 2500)}
+    plan = {'xsd': (4, 2000 if q else 36000), 'xpath': (5, 1800 if q else 30000), 'cls': (2, 2200 if q else 40000),
+            'invalid': (2, 1500 if q else 25000), 'fn': (3, 900 if q else 15000)}
     out = []
+    only = os.environ.get('VERIF_C12_CHECKS')       # development aid (sensitivity runs): restrict the sub-checks
+    if only:
+        plan = {k: v for k, v in plan.items() if k in only.split(',')}
+        FLOORS.clear()      # the floors are stated for the complete plan
     for chk, (shards, n) in plan.items():
         for i in range(shards):
             out.append({'check': chk, 'shard': i, 'n': n, 'seed': derive_seed(seed, PROPERTY, chk, i)})
@@ -827,6 +858,9 @@ def run_job(job, rec: Recorder):
 
 def shrink_job(job, bucket, budget):
     chk = job['check']
+    # every judge call already minimises the failing (pattern, subject) pair to name the bucket, so the
+    # hypothesis shrink pass only needs to tidy the case up: small budgets (judge calls past the first failure)
+    budget = min(budget, 20 if chk == 'fn' else 100)
     return hyp_shrink(_STRATS[chk], _JUDGES[chk], bucket, job['n'], job['seed'], budget)
 
 
